@@ -108,6 +108,16 @@ CHECKS = {
         "Reference model: effective = file value if named in the file else CLI value else default. disable_autoupdate on, debug_log off.",
         "DESIGN.md §3 C19",
     ),
+    "C05": (
+        "exploration",
+        "Hypothesis grammar-based program generation with a reference scoping model (gfortran-validated) as oracle for go-to-definition at every occurrence",
+        "Multi-file programs are generated so that every use site has exactly one binding under the model's reference implementation of "
+        "Fortran scoping (local/host/USE with ONLY, renames, PUBLIC/PRIVATE, re-export, inherited components); definition is requested at "
+        "every occurrence (drawn cursor offset) and must land on the bound declaration. Mismatches are classified from their local context "
+        "(role, how the reference bound the name, what fortls returned instead: nothing / a homonym / a PRIVATE entity of another module).",
+        "Covers the constructs of harness/fmodel.py, not the whole language; layout is limited to non-structural variation here (C13 covers splitting/joining).",
+        "DESIGN.md §3 C05",
+    ),
 }
 
 NOT_YET = "check not built yet in this session (work in progress; see DESIGN.md §3 for the planned generator and oracle)"
